@@ -546,3 +546,89 @@ Example rollback_over_a_pin_flips :
   current_use (run _ (step _ Eid) [Enable [1]; Rollback 0]%N (init _ [1]%N [])) = []
   /\ current_use (run _ (step _ Eid) [Disable [1]; Rollback 0]%N (init _ [] [])) = [1]%N.
 Proof. vm_compute. split; reflexivity. Qed.
+
+(* ------------------------------------------------------------------ several configured packages *)
+Section MultiProofs.
+  Variable V : Type.
+  Variable Er : N -> N -> list N -> V.
+
+  Definition MCoherent (ws : list (wst V)) : Prop :=
+    Forall (fun x => Coherent V (Er (fst x)) (snd x)) ws.
+
+  Lemma mstep_at_self : forall ws w o raw s,
+    nth_error ws w = Some (raw, s) ->
+    fst (mstep_at V Er w o ws) = Some (fst (step V (Er raw) o s))
+    /\ nth_error (snd (mstep_at V Er w o ws)) w = Some (raw, snd (step V (Er raw) o s)).
+  Proof.
+    induction ws as [|[r0 s0] ws IH]; intros [|w] o raw s H;
+      cbn [mstep_at fst snd nth_error] in *; try discriminate.
+    - inversion H; subst. split; reflexivity.
+    - now apply IH.
+  Qed.
+
+  Lemma mstep_at_other : forall ws w w' o,
+    w' <> w -> nth_error (snd (mstep_at V Er w o ws)) w' = nth_error ws w'.
+  Proof.
+    induction ws as [|[r0 s0] ws IH]; intros [|w] [|w'] o H;
+      cbn [mstep_at fst snd nth_error]; try reflexivity; try congruence.
+    apply IH. congruence.
+  Qed.
+
+  Lemma mstep_coherent : forall ws w o, MCoherent ws -> MCoherent (snd (mstep_at V Er w o ws)).
+  Proof.
+    induction ws as [|[r0 s0] ws IH]; intros [|w] o H; cbn [mstep_at fst snd];
+      try assumption; inversion H; subst; constructor; cbn [fst snd] in *; try assumption.
+    - now apply step_coherent.
+    - now apply IH.
+  Qed.
+
+  Lemma minit_coherent locked cfgs : MCoherent (minit V locked cfgs).
+  Proof.
+    unfold MCoherent, minit. induction cfgs as [|c cfgs IH]; cbn [map]; constructor;
+      [apply coherent_init | assumption].
+  Qed.
+
+  Lemma mrun_coherent : forall ops ws, MCoherent ws -> MCoherent (mrun V Er ops ws).
+  Proof.
+    induction ops as [|[w o] ops IH]; intros ws H; cbn [mrun]; [assumption|].
+    apply IH. now apply mstep_coherent.
+  Qed.
+
+  Theorem multi_reads_current_proof : multi_reads_current_stmt V Er.
+  Proof.
+    intros locked cfgs ops w a raw s ws Hn.
+    assert (Hc : Coherent V (Er raw) s).
+    { assert (HM : MCoherent ws) by (apply mrun_coherent, minit_coherent).
+      unfold MCoherent in HM. rewrite Forall_forall in HM.
+      apply (HM (raw, s)). eapply nth_error_In; exact Hn. }
+    destruct (mstep_at_self ws w (Read a) raw s Hn) as [-> _].
+    destruct (read_step V (Er raw) a s Hc) as [-> _]. reflexivity.
+  Qed.
+
+  Theorem multi_isolated_proof : multi_isolated_stmt V Er.
+  Proof. intros ws w w' o H. now apply mstep_at_other. Qed.
+
+  Theorem multi_refused_unchanged_proof : multi_refused_unchanged_stmt V Er.
+  Proof.
+    intros ws w o raw s Hn Ho Hr.
+    destruct (mstep_at_self ws w o raw s Hn) as [Hf Hs]. rewrite Hf in Hr.
+    exists (snd (step V (Er raw) o s)). split; [assumption|].
+    inversion Hr as [Hr']. unfold current_use.
+    destruct o as [vals|vals|k| |a]; try destruct Ho; cbn [step] in *.
+    - destruct (request V true vals s) as [r s'] eqn:Hq; cbn [fst snd] in *; subst r.
+      now destruct (refused_restores V _ _ _ _ Hq) as (H & _).
+    - destruct (request V false vals s) as [r s'] eqn:Hq; cbn [fst snd] in *; subst r.
+      now destruct (refused_restores V _ _ _ _ Hq) as (H & _).
+  Qed.
+End MultiProofs.
+
+(* two configured packages of the same raw package whose USE sets differ, used side by side *)
+Example multi_nontrivial :
+  map fst (mexec _ (fun _ => Eid)
+             [(0%nat, Read 0); (1%nat, Read 0); (1%nat, Enable [2]); (0%nat, Disable [1]);
+              (1%nat, Read 0); (0%nat, Read 0); (1%nat, Commit); (0%nat, Commit);
+              (0%nat, Read 0); (1%nat, Read 0)]%N
+             (minit _ [9]%N [(0, [1]); (0, [])]%N))
+  = [Some (RV [1]); Some (RV []); Some (RB true); Some (RB true); Some (RV [2]); Some (RV []);
+     Some RNone; Some RNone; Some (RV []); Some (RV [2])]%N.
+Proof. vm_compute. reflexivity. Qed.
